@@ -132,6 +132,20 @@ func c11Writers() []c11Writer {
 				a.Name, a.Severity = "A.relabelled", "LOW"
 				s.AddSignature(&a)
 			}}},
+		// an update that keeps hashes AND score and changes only the tolerance (the third thing the
+		// packed index value carries)
+		{name: "retol(A:same hashes and score, tolerance 0.5 -> 0.001)", ops: []func(*PebbleScanner, *storeProbes){
+			func(s *PebbleScanner, sp *storeProbes) {
+				a := c11SigV(sp, "A", 1)
+				a.Name, a.EntropyTolerance = "A.tight", 0.001
+				s.AddSignature(&a)
+			}}},
+		{name: "retol-batch(A:tolerance 0.5 -> 0.001 through AddSignatures)", ops: []func(*PebbleScanner, *storeProbes){
+			func(s *PebbleScanner, sp *storeProbes) {
+				a := c11SigV(sp, "A", 1)
+				a.Name, a.EntropyTolerance = "A.tight", 0.001
+				s.AddSignatures([]*detection.Signature{&a})
+			}}},
 	}
 }
 
@@ -140,7 +154,14 @@ type c11Scenario struct {
 	readers []int
 	writers []int
 	bound   map[string]int
+	// preload: that many filler signatures whose IDs sort before every other ID are stored first
+	// (a rebuild then commits its first chunk before it reaches A); negative: -preload records with
+	// 6 MB index keys (the chunk is committed for its size)
+	preload int
 }
+
+// c11PreloadN is the preload of the scenario being run (c11Seed reads it).
+var c11PreloadN int
 
 func c11Scenarios() []c11Scenario {
 	var sc []c11Scenario
@@ -188,6 +209,17 @@ func c11Scenarios() []c11Scenario {
 			sc = append(sc, c11Scenario{readers: []int{r}, writers: []int{w}, bound: map[string]int{"quick": 2, "thorough": -1}})
 		}
 	}
+	// an update of the tolerance only: alone, against a rebuild, under each kind of scan
+	for _, ws := range [][]int{{12}, {13}, {12, 2}} {
+		sc = append(sc, c11Scenario{writers: ws, bound: map[string]int{"quick": 2, "thorough": 4}})
+	}
+	for _, r := range []int{0, 1, 3} {
+		sc = append(sc, c11Scenario{readers: []int{r}, writers: []int{12}, bound: map[string]int{"quick": 2, "thorough": -1}})
+	}
+	// a rebuild of a store that holds more than one rebuild chunk (1000 records sort before A)
+	// against an update of A
+	sc = append(sc, c11Scenario{writers: []int{2, 5}, preload: -2, bound: map[string]int{"quick": 1, "thorough": 3}})
+	sc = append(sc, c11Scenario{writers: []int{2, 5}, preload: 1000, bound: map[string]int{"quick": 0, "thorough": 1}})
 	return sc
 }
 
@@ -305,6 +337,26 @@ func c11FinalScans(s *PebbleScanner, sp *storeProbes, thr, tol float64) []string
 }
 
 func c11Seed(s *PebbleScanner, sp *storeProbes) {
+	if c11PreloadN < 0 {
+		// two records whose index keys are so long (6 MB topology "hashes") that a rebuild commits
+		// a chunk after the second one (the batch size limit), before it reaches A
+		big := strings.Repeat("f", 6<<20)
+		for i := 0; i < -c11PreloadN; i++ {
+			f := detection.Signature{ID: fmt.Sprintf("0%05d", i), Name: "filler", Severity: "LOW", TopologyHash: big + fmt.Sprint(i), EntropyScore: 1, EntropyTolerance: 0.5, NodeCount: 1}
+			if err := s.AddSignature(&f); err != nil {
+				panic(err)
+			}
+		}
+	}
+	if c11PreloadN > 0 {
+		fill := make([]*detection.Signature, 0, c11PreloadN)
+		for i := 0; i < c11PreloadN; i++ {
+			fill = append(fill, &detection.Signature{ID: fmt.Sprintf("0%05d", i), Name: "filler", Severity: "LOW", TopologyHash: fmt.Sprintf("f111e2%026d", i), EntropyScore: 1, EntropyTolerance: 0.5, NodeCount: 1})
+		}
+		if err := s.AddSignatures(fill); err != nil {
+			panic(err)
+		}
+	}
 	a := c11SigV(sp, "A", 1)
 	b := c11SigV(sp, "B", 2)
 	c := c11SigV(sp, "C", 1)
